@@ -162,7 +162,7 @@ def hexs(v):
 UB_NOTES = set()
 
 
-def run_harness(binp, lines, timeout=1800):
+def run_harness(binp, lines, timeout=5400):
     """returns (output_lines, crash_info or None).  A crash (sanitizer abort, signal) is bisected to one line."""
     env = dict(os.environ)
     env["ASAN_OPTIONS"] = "detect_leaks=0:abort_on_error=0"
@@ -188,12 +188,29 @@ def run_harness(binp, lines, timeout=1800):
     return out, crash
 
 
-def run_driver(mode, lines, timeout=1800):
+def _run_driver_one(mode, lines, timeout):
     p = subprocess.run([common.driver_path(), mode], input="\n".join(lines) + "\n", stdout=subprocess.PIPE,
                        stderr=subprocess.PIPE, text=True, timeout=timeout)
     if p.returncode != 0:
         raise RuntimeError("driver failed: " + p.stderr[-2000:])
-    return [l for l in p.stdout.split("\n") if l]
+    out = [l for l in p.stdout.split("\n") if l]
+    if len(out) != len(lines):
+        raise RuntimeError("driver printed %d verdicts for %d lines" % (len(out), len(lines)))
+    return out
+
+
+def run_driver(mode, lines, timeout=5400):
+    """One verdict per line; the lines are independent of each other in this mode, so large inputs are judged by several
+    driver processes in parallel (the thorough tier has millions of lines)."""
+    if len(lines) < 40000:
+        return _run_driver_one(mode, lines, timeout)
+    import concurrent.futures as cf
+    n = min(12, max(2, len(lines) // 40000))
+    size = (len(lines) + n - 1) // n
+    shards = [lines[i:i + size] for i in range(0, len(lines), size)]
+    with cf.ThreadPoolExecutor(len(shards)) as ex:
+        parts = list(ex.map(lambda sh: _run_driver_one(mode, sh, timeout), shards))
+    return [v for part in parts for v in part]
 
 
 # ------------------------------------------------------------------------------------------
